@@ -22,15 +22,15 @@ Check (C06_release_exact :
   let m' := fst (do_closed m p c) in
   (In d (ins m') <-> In d (ins m) /\ d <> c) /\ (In d (outs m') <-> In d (outs m) /\ d <> c)).
 Check (C06_below_limit_accepts :
-  forall L m p c (lst f : bool),
+  forall L m p c t (lst f : bool),
   limit_reached (if lst then max_in L else max_out L) (if lst then ins m else outs m) = false ->
   state_of m p = Disconnected None ->
   (forall q, lookup c (pending m) = Some q -> q = p) ->
-  In (CallAccept c) (snd (do_established L m p c lst f))).
+  In (CallAccept c t) (snd (do_established L m p c t lst f))).
 Check (C06_reject_preserves :
-  forall L m p c (lst f : bool) q d,
-  In (CallReject c) (snd (do_established L m p c lst f)) ->
-  recorded (state_of m q) d -> recorded (state_of (fst (do_established L m p c lst f)) q) d).
+  forall L m p c t (lst f : bool) q d,
+  In (CallReject c t) (snd (do_established L m p c t lst f)) ->
+  recorded (state_of m q) d -> recorded (state_of (fst (do_established L m p c t lst f)) q) d).
 Check (C06_dial_gate :
-  forall L m p f, limit_reached (max_out L) (outs m) = true ->
-  do_dial_peer L m p f = (m, [Ret RET_LIMIT]) /\ do_dial_addr L m p f = (m, [Ret RET_LIMIT])).
+  forall L m p ts fl a f, limit_reached (max_out L) (outs m) = true ->
+  do_dial_peer L m p ts fl = (m, [Ret RET_LIMIT]) /\ do_dial_shape L m a f = (m, [Ret RET_LIMIT])).
